@@ -243,7 +243,8 @@ def make_case(rnd):
                     pass     # the node went away with an earlier child-list fault
             label = '+'.join(f[0] for f in chosen)
             expect = False
-    doc = dg.ser(tree, default_ns=rnd.random() < 0.3)
+    sp = {p for _, p in dg.nodes(tree) if p and len(p) <= 3 and rnd.random() < .5} if rnd.random() < .3 else None
+    doc = dg.ser(tree, default_ns=rnd.random() < 0.3, switch_paths=sp)
     cls = xmlschema.XMLSchema11 if rnd.random() < 0.3 else xmlschema.XMLSchema10
     if cls is xmlschema.XMLSchema11:
         dg.mark_inheritable(g, rnd)
